@@ -93,7 +93,7 @@ def lean_obligations(pid, tier):
     # parse #print axioms output
     cur = None
     text = out.replace("\n  ", " ")
-    for m in re.finditer(r"'([^']+)' (depends on axioms: \[([^\]]*)\]|does not depend on any axioms)", text):
+    for m in re.finditer(r"'(\S+)' (depends on axioms: \[([^\]]*)\]|does not depend on any axioms)", text):
         name = m.group(1)
         axs = [a.strip() for a in (m.group(3) or "").split(",") if a.strip()]
         res["axioms"][name] = axs
@@ -203,10 +203,8 @@ def main():
     t0 = time.time()
     os.makedirs(EVID, exist_ok=True)
 
-    # ---- 1. proof obligations
-    lean = lean_obligations(pid, tier)
-
-    # ---- 2. tie
+    # ---- 1. tie: build the harness against the current /repo (needed first: C16 regenerates a Lean
+    #         input from the running code)
     profiles = meta.get("profiles", ["release"])
     bins = {}
     notes = []
@@ -224,6 +222,9 @@ def main():
         if note:
             notes.append(note)
         bins[prof] = binp
+
+    # ---- 2. proof obligations
+    lean = lean_obligations(pid, tier)
 
     if replay:
         rc, out = sh([bins[profiles[0]], "replay", "--model", RSMODEL, "--case", replay])
